@@ -43,7 +43,7 @@ try:
     rec["checks"] = {}
     for p in props:
         t0 = time.time()
-        rc, o = run(["/verif/vcheck", p, "--tier", "quick"], "/verif", {"AHBICHT_REPO": wt})
+        rc, o = run(["/verif/vcheck", p, "--tier", "quick"], "/verif", {"AHBICHT_REPO": wt, "VERIF_EVIDENCE_DIR": d + "/evidence"})
         lines = [l for l in o.splitlines() if l.startswith(("VIOLATION", "  obligation", "UNDECIDED", "SUMMARY", "CHECKER"))]
         rec["checks"][p] = {"exit": rc, "seconds": round(time.time() - t0, 1), "lines": lines[:12]}
     rec["detected_by"] = [p for p, r in rec["checks"].items() if r["exit"] == 1]
